@@ -221,7 +221,7 @@ fn gen_json(g: &mut G, depth: u32) -> serde_json::Value {
         1 => Value::Bool(g.chance(1, 2)),
         2 => Value::from(g.below(1 << 40) as i64 - (1 << 39)),
         3 => Value::String(word(g)),
-        4 => Value::String("x".repeat(g.size(20_000))),
+        4 => Value::String("x".repeat(if g.chance(1, 4) { *g.pick(&[16_385usize, 65_536, 70_000]) } else { g.size(20_000) })),
         5 => Value::Array((0..g.below(5)).map(|_| gen_json(g, depth + 1)).collect()),
         _ => {
             let mut m = serde_json::Map::new();
@@ -238,12 +238,13 @@ pub fn gen_custom(g: &mut G, max: usize) -> CustomSpec {
     let n = g.below(7) as usize;
     let mut ops = Vec::new();
     for _ in 0..n {
-        let len = match g.below(6) {
+        let len = match g.below(8) {
             0 => 0,
             1 => 1,
             2 => g.usize_below(100),
             3 => 8192 + g.usize_below(3),
             4 => g.size(max),
+            5 => *g.pick(&[16383usize, 16384, 16385, 65535, 65536, 65537, 100_000]),
             _ => 8191,
         };
         let data = gen::gen_bytes(len, g.below(3), g.subseed());
@@ -258,6 +259,9 @@ pub fn gen_custom(g: &mut G, max: usize) -> CustomSpec {
     }
     if ops.iter().any(|o| matches!(o, WOp::Write(b) | WOp::WriteAll(b) if b.len() > 8192)) {
         g.probe("custom-body-write-over-8k");
+    }
+    if ops.iter().any(|o| matches!(o, WOp::Write(b) | WOp::WriteAll(b) if b.len() >= 65536)) {
+        g.probe("custom-body-write-64k-or-more");
     }
     CustomSpec { chunked, ops }
 }
@@ -393,6 +397,82 @@ impl ReqPlan {
                 rb.body(form).send()
             }
             BodySpec::Custom(c) => rb.body(ScriptedBody { spec: c.clone(), writes_done: 0 }).send(),
+        }
+    }
+}
+
+fn prepare_and_send<B: Body>(rb: attohttpc::RequestBuilder<B>, times: usize) -> Vec<Result<u16, String>> {
+    let mut out = Vec::new();
+    let mut p = match rb.try_prepare() {
+        Ok(p) => p,
+        Err(e) => return vec![Err(format!("prepare:{}", crate::bodyx::err_kind(&e)))],
+    };
+    for _ in 0..times {
+        out.push(match p.send() {
+            Ok(r) => {
+                let st = r.status().as_u16();
+                match r.bytes() {
+                    Ok(_) => Ok(st),
+                    Err(e) => Err(format!("body:{}", crate::bodyx::err_kind(&e))),
+                }
+            }
+            Err(e) => Err(crate::bodyx::err_kind(&e)),
+        });
+    }
+    out
+}
+
+impl ReqPlan {
+    /// prepare once, send the same PreparedRequest `times` times (each response read to the end)
+    pub fn send_prepared(&self, rb: attohttpc::RequestBuilder, times: usize) -> Vec<Result<u16, String>> {
+        let rb = self.build(rb);
+        let e = |e: attohttpc::Error| vec![Err(format!("build:{}", crate::bodyx::err_kind(&e)))];
+        match &self.body {
+            BodySpec::None => prepare_and_send(rb, times),
+            BodySpec::Text(s) => prepare_and_send(rb.text(s.clone()), times),
+            BodySpec::Bytes(b) => prepare_and_send(rb.bytes(b.clone()), times),
+            BodySpec::File(data, pre) => {
+                let mut f = temp_file(data);
+                if *pre > 0 {
+                    use std::io::Read;
+                    let mut sink = vec![0u8; *pre];
+                    let _ = f.read_exact(&mut sink);
+                }
+                prepare_and_send(rb.file(f), times)
+            }
+            BodySpec::Json(v) => match rb.json(v) {
+                Ok(rb) => prepare_and_send(rb, times),
+                Err(x) => e(x),
+            },
+            BodySpec::JsonStreaming(v) => prepare_and_send(rb.json_streaming(v.clone()), times),
+            BodySpec::Form(pairs) => match rb.form(pairs) {
+                Ok(rb) => prepare_and_send(rb, times),
+                Err(x) => e(x),
+            },
+            BodySpec::Multipart(f) => {
+                let mut b = attohttpc::MultipartBuilder::new();
+                for (k, v) in &f.texts {
+                    b = b.with_text(k, v);
+                }
+                for (n, d, fname, mime) in &f.files {
+                    let mut mf = attohttpc::MultipartFile::new(n, d);
+                    if let Some(x) = fname {
+                        mf = mf.with_filename(x);
+                    }
+                    if let Some(m) = mime {
+                        mf = match mf.with_type(m) {
+                            Ok(m) => m,
+                            Err(x) => return e(x),
+                        };
+                    }
+                    b = b.with_file(mf);
+                }
+                match b.build() {
+                    Ok(form) => prepare_and_send(rb.body(form), times),
+                    Err(x) => e(x),
+                }
+            }
+            BodySpec::Custom(c) => prepare_and_send(rb.body(ScriptedBody { spec: c.clone(), writes_done: 0 }), times),
         }
     }
 }
